@@ -6,7 +6,7 @@ ROOT = os.path.dirname(os.path.dirname(os.path.abspath(__file__)))
 # property -> (category, level text, level note, technique, design ref)
 CLAIMED = {
  "C19": ("proof",
-         "CBMC proofs over all 2^8..2^64 words for bit reversal and the byte-order accessors (loop-free harness triples), for the square-root fast path and its Newton start value (obligation at the iteration-head hook: x < (x1+1)^2 for every x), and termination of Euclid's loop (loop contract with decreases clause). The Newton step/exit lemma is assumed (solver limit), so sqrt end-to-end and the gcd/lcm divisibility clauses are bounded stand-ins (x < 2^16; a,b < 64 and A*2^40,B*2^40) that are labelled bounded and not counted as discharged.",
+         "CBMC proofs over all 2^8..2^64 words for bit reversal and the byte-order accessors (loop-free harness triples), for the square-root fast path and its Newton start value (obligation at the iteration-head hook: x < (x1+1)^2 for every x), termination of Euclid's loop (loop contract with decreases clause), and the call protocol of lcm (a_uNN_gcd replaced by its contract: lcm consults the full-width gcd of exactly its arguments, for all pairs). The Newton step/exit lemma is assumed (solver limit), so sqrt end-to-end and the gcd/lcm divisibility clauses are bounded stand-ins (x < 2^16; a,b < 64 and A*2^40,B*2^40) that are labelled bounded and not counted as discharged.",
          "trusted: cbmc 6.11.0 front end + SAT back end, LP64 little-endian machine model, cbmc's model of __builtin_clz; assumed: integer Newton step lemma; ghost witness index stands for a universal quantifier",
          "contract-based deductive verification with CBMC (harness Hoare triples + goto-instrument loop contracts), bounded unwinding stand-ins where stated", "5/C19"),
  "C17": ("proof",
